@@ -54,6 +54,7 @@ class DilInterp(Interp):
             if c not in A or not A[c].is_machine:
                 raise AnchorMissing("dilation machine class %s not found" % c)
         self.scope = set(SCOPE)
+        self.timer_cids = set()
         self.opaque = set()
         self.instantiable = {"TrafficTimer", "Connector"}
         M, K, T = A["Manager"], A["Connector"], A["TrafficTimer"]
@@ -122,6 +123,10 @@ class DilInterp(Interp):
     def ev(self, e, st, ctx):
         if isinstance(e, ast.Name) and e.id in ROLE_NAMES and e.id not in ctx.locs:
             return C("<role:%s>" % e.id)
+        if isinstance(e, ast.Name) and e.id not in ctx.locs:
+            mc = self._module_consts(ctx.cls.file)
+            if e.id in mc:
+                return mc[e.id]
         if isinstance(e, ast.Dict):
             if all(isinstance(k, ast.Constant) and isinstance(k.value, str) for k in e.keys):
                 return D({k.value: self.ev(v, st, ctx) for k, v in zip(e.keys, e.values)})
@@ -142,11 +147,37 @@ class DilInterp(Interp):
                 else:
                     res = 'U'
                 return res if isinstance(op, (ast.Is, ast.Eq)) else {'T': 'F', 'F': 'T'}.get(res, 'U')
+            if isinstance(op, (ast.In, ast.NotIn)) and isinstance(l, C) and isinstance(r, (TUP, FL)) and all(isinstance(x, C) for x in r.items):
+                res = 'T' if l in r.items else 'F'
+                return res if isinstance(op, ast.In) else {'T': 'F', 'F': 'T'}[res]
             if isinstance(op, (ast.Gt, ast.Lt, ast.GtE, ast.LtE)) and isinstance(l, C) and isinstance(r, C) \
                     and type(l.v) is type(r.v) and isinstance(l.v, (str, int)) and not isinstance(l.v, bool):
                 res = {ast.Gt: l.v > r.v, ast.Lt: l.v < r.v, ast.GtE: l.v >= r.v, ast.LtE: l.v <= r.v}[type(op)]
                 return 'T' if res else 'F'
         return Interp.ev(self, e, st, ctx)
+
+    def _module_consts(self, file):
+        """module-level names bound once to a literal: a str / int / bytes / bool / None constant, or a display of such (read as a set)"""
+        cache = self.__dict__.setdefault("_modconst_cache", {})
+        if file not in cache:
+            out, seen = {}, collections.Counter()
+            for n in self.prog.tree.ast(file).body:
+                if isinstance(n, ast.Assign):
+                    for t in n.targets:
+                        for x in ast.walk(t):
+                            if isinstance(x, ast.Name):
+                                seen[x.id] += 1
+                    if len(n.targets) == 1 and isinstance(n.targets[0], ast.Name):
+                        try:
+                            v = ast.literal_eval(n.value)
+                        except Exception:
+                            continue
+                        if v is None or isinstance(v, (str, int, bytes, bool)):
+                            out[n.targets[0].id] = C(v)
+                        elif isinstance(v, (tuple, list, set, frozenset)) and all(isinstance(x, (str, int, bytes)) for x in v):
+                            out[n.targets[0].id] = FS(frozenset(C(x) for x in v))
+            cache[file] = {k: v for k, v in out.items() if seen[k] == 1}
+        return cache[file]
 
     @staticmethod
     def bind(fn, argvals, kwvals):
@@ -221,6 +252,16 @@ class DilInterp(Interp):
         return Interp._run_simple(self, stmt, st, ctx)
 
     # -- calls ---------------------------------------------------------------------------------------------------
+    def _external_effects(self, call, st, ctx):
+        st = Interp._external_effects(self, call, st, ctx)
+        f = call.func
+        if isinstance(f, ast.Attribute) and f.attr == "callLater" and ctx.cls.name == "Manager":
+            # whatever the Manager hands to callLater is a timer continuation (a closure, a lambda or a bound method alike)
+            info = self._ext_info.get((id(call), ctx.cls.name))
+            if info:
+                self.timer_cids.update(info[1])
+        return st
+
     def mark(self, st, k, v='T'):
         st = st.cp()
         st[('e', k)] = v
@@ -260,7 +301,7 @@ class DilInterp(Interp):
                 if cn == "Manager" and recv == self.timer_attr and f.attr == "cancel":
                     st = st.cp()
                     for k, v in list(st.items()):
-                        if k[0] == 'k' and v == 'T' and k[1].startswith("Manager.<closure"):
+                        if k[0] == 'k' and v == 'T' and k[1] in self.timer_cids:
                             st[k] = 'F'
                     return [(st, 'U', None)]
         if isinstance(f, ast.Name) and f.id in self.instantiable:
@@ -474,7 +515,7 @@ class DilExplorer:
             ks = self.kstate(sx)
             if ks in self.k_live:
                 self.viol("stopped-with-live-connector", "Manager[%s] with a Connector still racing (%s)" % (ms, ks))
-            if any(k[0] == 'k' and v == 'T' and k[1].startswith("Manager.<closure") for k, v in sx.items()):
+            if any(k[0] == 'k' and v == 'T' and k[1] in I.timer_cids for k, v in sx.items()):
                 self.viol("stopped-with-timer", "Manager[%s] with the ping timer still pending" % ms)
             if any(l[e] == SEL for l in links) and self.g(sx, 'disc') != 'T':
                 self.viol("stopped-with-connection", "Manager[%s] while its connection is still in use and was not asked to close" % ms)
@@ -522,7 +563,7 @@ class DilExplorer:
             for k, v in sx.items():
                 if k[0] == 'k' and v == 'T':
                     cid = k[1]
-                    if cid.startswith("Manager.<closure"):
+                    if cid in I.timer_cids:
                         def timer(j, x=x, cid=cid):
                             s = j.s[x].cp()
                             s[('e', 'exp')] = C(min(2, s[('e', 'exp')].v + 1))
